@@ -19,7 +19,8 @@ def _norm(i, n):
 def partial(h):
     """exactly the addressed entries are fixed at their values, everything else is untouched; an address beyond the end
     of the vector is skipped"""
-    keys = h.choice('mask_keys', [(0,), (1, 3), (-1,), (0, 2, 7)])
+    # (a mask is a dict: its keys come in insertion order, so the out-of-range one may well come first)
+    keys = h.choice('mask_keys', [(0,), (1, 3), (-1,), (0, 2, 7), (7, 2, 0), (3, 1)])
     vals = [h.real('v%d' % j) for j in range(len(keys))]
     x = h.list_real('x')
     n = h.len(x)
